@@ -343,10 +343,28 @@ func init() {
 				return append(out, world.Op{K: world.KReimport, Class: ClsEnv})
 			}
 			restart.Required = []string{"restart", "restart.with_decay_clock_before_reward_start", "decay.single_interval"}
-			if tier == "thorough" {
-				return []*engine.Scenario{mk("c14-lifecycle", []int{2, 0, 2, 4, 2}, 9), jail, restart}
+			// "before its reward start time an asset ... is not charged the take rate": the only taxed asset is the one that warms
+			// up (rate 0.5, start +5u, claim interval 2u), staked from the first block on; judged by the take-rate oracle of C09
+			// (no deduction and a clock that keeps up while nothing is chargeable, then exactly the intervals since the start)
+			wtr := &engine.Scenario{
+				Property: "C14", Name: "c14-warmup-take-rate", Cfg: c09Cfg("0", "0", 2*U, true), Stores: world.ModuleStores,
+				Seeds:      [][]world.Op{{opDel(0, 0, "ccc", "1000000"), opDel(1, 1, "aaa", "1000")}},
+				ClassNames: classNames, Budgets: tierPick(tier, []int{0, 0, 0, 6, 0}, []int{0, 0, 0, 8, 0}), MaxDepth: tierPick(tier, 6, 8),
+				NewRef: func(w *world.World, root *engine.Node) engine.Ref { return &takeRef{lastDeposit: map[string]int64{}} },
+				Ops: func(n *engine.Node) []world.Op {
+					var ops []world.Op // (no deposits: C09 owns the retroactivity clauses and their known findings)
+					for _, dt := range dts(1, 2, 3) {
+						ops = append(ops, world.Op{K: world.KBlock, Dt: int64(dt), Class: ClsBlock})
+					}
+					return ops
+				},
+				Step: c09Step, SeedStep: true,
+				Required: []string{"endblock.sub_interval", "asset.charged"},
 			}
-			return []*engine.Scenario{mk("c14-lifecycle", []int{2, 0, 1, 3, 1}, 5), jail, restart}
+			if tier == "thorough" {
+				return []*engine.Scenario{mk("c14-lifecycle", []int{2, 0, 2, 4, 2}, 9), jail, restart, wtr}
+			}
+			return []*engine.Scenario{jail, restart, wtr, mk("c14-lifecycle", []int{2, 0, 1, 3, 1}, 5)}
 		},
 		Assumptions: []string{
 			"assets: aaa decays x0.5 every 1u in (0,5); bbb decays x0.9 every 2u in (1.5,2); ccc warms up until +4u on range (1,1); governance changes weight, rate (0.5/1/1.5), interval (0/1u/2u) and range; block steps 1u/2u/3u/7u",
